@@ -19,7 +19,8 @@ THEOREMS = [
     "C17_mirror_partial", "C17_pages_nodup", "C17_mirror_refuted_copy_subdir", "C17_mirror_refuted_dotted",
     "C17_bad_page_isolated", "C17_bad_page_isolated_tree",
     "C17_pages_written", "C17_files_copied_beside",
-    "C17_copy_subdir_copied", "C17_copy_subdir_skip_as_coded", "C17_copy_subdir_partial",
+    "C17_copy_subdir_copied", "C17_copy_subdir_every_page", "C17_copy_subdirs_spec",
+    "C17_copy_subdir_skip_as_coded", "C17_copy_subdir_partial",
     "C17_copy_subdir_refuted",
 ]
 
@@ -101,8 +102,9 @@ def gen_dir(rng, depth, knobs):
     # a few non-index pages carry list metadata of their own (copy_subdir is honoured for every page)
     dirs = [e["n"] for e in es if e["k"] == "d"]
     for e in es:
-        if e["k"] == "f" and e["n"] != "index.md" and e["n"].endswith(".md") and rng.random() < 0.08:
-            if dirs and rng.random() < 0.7:
+        if e["k"] == "f" and e["n"] != "index.md" and e["n"].endswith(".md") and \
+                rng.random() < knobs.get("p_leaf_meta", 0.2):
+            if dirs and rng.random() < 0.85:
                 e["cp"] = [rng.choice(dirs)]
             else:
                 e["ord"] = [rng.choice(MD_NAMES)]
@@ -343,6 +345,31 @@ def spec_pages_py(es, prefix=""):
     return out
 
 
+def dir_entries(es, d):
+    for part in [x for x in d.split("/") if x]:
+        es = next(x for x in es if x["k"] == "d" and x["n"] == part)["es"]
+    return es
+
+
+def has_titled_index(es):
+    return any(x["k"] == "f" and x["n"] == "index.md" and x["titled"] for x in es)
+
+
+def add_asset_copies(rng, es, above=()):
+    """let some index.md name pure asset directories (no index.md inside, name not used one level below)"""
+    idx = next((x for x in es if x["k"] == "f" and x["n"] == "index.md"), None)
+    dirs = [x for x in es if x["k"] == "d"]
+    below = {c["n"] for x in dirs for c in x["es"] if c["k"] == "d"}
+    mine = []
+    if idx is not None and rng.random() < 0.5:
+        mine = [x["n"] for x in dirs if not any(c["n"] == "index.md" for c in x["es"]) and x["n"] not in below
+                and rng.random() < 0.7]
+        idx["cp"] = mine
+    for x in dirs:
+        if x["n"] not in above:
+            add_asset_copies(rng, x["es"], tuple(mine))
+
+
 def make_bodies(rng, pages):
     """page bodies with links whose label says where they must lead (relative to the output root)"""
     bodies = {}
@@ -489,6 +516,23 @@ def e2e_problems(es, bodies, pages, res, w, stats=None):
             chain = chain[:-1]
         if breadcrumb_targets(doc, out, text) != chain:
             probs.append(f"{out}: breadcrumb {breadcrumb_targets(doc, out, text)}, expected {chain}")
+    # copy_subdir of every written page: directories without pages of their own (all of them for an
+    # index.md) are completely present beside the page
+    for src, out in pages:
+        d = posixpath.dirname(src)
+        here = dir_entries(es, d)
+        me = next(x for x in here if x["k"] == "f" and x["n"] == posixpath.basename(src))
+        for item in me["cp"]:
+            tgt = next((x for x in here if x["k"] == "d" and x["n"] == item), None)
+            if tgt is None or "/" in item:
+                continue
+            if not src.endswith("index.md") and has_titled_index(tgt["es"]):
+                continue
+            for rel, e in files_of(tgt["es"], (d + "/" if d else "") + item + "/"):
+                if e is not None and rel not in want:
+                    f = doc / "page" / rel
+                    if not f.is_file() or f.read_text() != render_file(rel, e):
+                        probs.append(f"{rel} (copy_subdir: {item} of {src}) was not copied")
     # other files copied beside the pages of their directory
     for rel, e in files_of(es):
         if e is None:
@@ -514,6 +558,7 @@ def end_to_end(chk, rng, nproj):
             es = gen_dir(rng, 3, dict(clean_knobs(), nmax=4, p_index=0.95, hidden=(k % 2 == 0)))
             if len(spec_pages_py(es)) >= 3:
                 break
+        add_asset_copies(rng, es)
         pages = spec_pages_py(es)
         bodies = make_bodies(rng, pages)
         res, fl, log, err, w = full_run(es, bodies)
@@ -574,6 +619,11 @@ CORPUS = [
           F_("z.md", True, cp=["sub"])]),
     ([], [F_("index.md", True, cp=["sub"]), D_("sub", [F_("index.md", True, cp=["in"]), D_("in", [F_("i.txt")])])]),
     ([], [F_("a.md")]),
+    ([], [F_("index.md"), F_("a.md", True, cp=["assets"]), F_("b.md", True, cp=["assets", "nodir"]),
+          D_("assets", [F_("pic.png"), D_("deep", [F_(".keep")])]),
+          D_("sub", [F_("index.md"), F_("c.md", True, cp=["img"]), D_("img", [F_("x.png")])])]),
+    (["media"], [F_("index.md"), F_("a.md"), D_("media", [F_("m.png")]),
+                 D_("sub", [F_("index.md"), F_("b.md"), D_("media", [F_("n.png")])])]),
     ([], [F_("index.md"), F_("a.html"), F_("a.md"), D_("docs.md", [F_("index.md"), F_("x.md")])]),
 ]
 
@@ -667,9 +717,19 @@ def run(chk):
     e2e_cases, e2e_infos = end_to_end(chk, rng, 22 if quick else 200)
     evaluate(chk, e2e_cases, [([], es, r, fl) for es, r, fl in e2e_infos], "page tree and page/ files of a full FORD run")
     replay_known(chk)
+    if not quick:
+        chk.coqchk(["Ford.Props.C17"])
 
 
 def replay(chk, rep):
+    try:
+        return _replay(chk, rep)
+    finally:
+        import shutil
+        shutil.rmtree(chk.tmp, ignore_errors=True)
+
+
+def _replay(chk, rep):
     if "tree" not in rep:
         print("nothing to replay:", rep.get("kind"), rep.get("broken"))
         return 1
